@@ -512,8 +512,8 @@ macro_rules! impl_cache_processor {
                             ctr += 1;
                             ctr < self.num_to_keep - 1
                         });
-                        self.start_ts.insert(key, Time::now());
                     }
+                    self.start_ts.insert(key, Time::now());
                 }
                 #[cfg(transparencies_stretto_verif)]
                 crate::verif::counters::START_TS_LEN
